@@ -15,7 +15,8 @@ Unescape(t) == IF t = <<>> THEN <<>>
                ELSE <<t[1]>> \o Unescape(Tail(t))
 NoPanic == T.panic = ""
 \* text outside expressions passes through unchanged, '@@' yields '@', other '@' stay literal
-BodyFaithful == T.kind = "body" /\ T.onlybody /\ NoPanic => T.out = Unescape(T.body)
+\* (expect comes from the reference scan in Scanner.tla: body text with @@ unescaped, an unterminated "@(" and the rest verbatim)
+BodyFaithful == T.kind = "body" /\ T.onlybody /\ NoPanic => T.out = T.expect
 \* every string, written as a quoted literal, evaluates to exactly that string
 LiteralOK    == T.kind = "literal" /\ NoPanic => T.out1 = T.s
 \* ... also next to another literal and surrounding text: scanner and lexer agree where things end
